@@ -353,6 +353,15 @@ func (g *g17) lineRemove(c int) {
 	}
 }
 
+// a BatchWrite of the service (svc=1): a transaction the service begins and ends by itself. Nothing
+// in the simulation changes: the call is only issued when the lock is free (else it is answered
+// busy without being made), and it leaves the lock free. About half are batches the service rejects.
+func (g *g17) lineOneShot() {
+	c := 1 + g.r.Intn(g.ncl)
+	kind := []string{"ok", "del", "emptykey", "longkey", "badtype", "bigvalue"}[pick(g.r, 35, 15, 15, 15, 16, 4)]
+	g.emit("oneshot %d %s %d %d", c, kind, g.key(), 1+g.r.Intn(50))
+}
+
 func (g *g17) lineSleep(n int) {
 	g.emit("sleep %d", n)
 	g.tick(n)
@@ -418,6 +427,9 @@ func (g *g17) program() {
 	}
 	n := 6 + g.r.Intn(18)
 	for i := 0; i < n; i++ {
+		if g.svc && g.r.Intn(8) == 0 {
+			g.lineOneShot() // at any point: with the lock busy the answer is `busy`
+		}
 		switch pick(g.r, 74, 14, 5, 3, 1, 2) {
 		case 0:
 			c := 1 + g.r.Intn(g.ncl)
@@ -563,6 +575,10 @@ func (g *g17) epilogue() {
 				g.lineFinish(c)
 			}
 		}
+	}
+	if g.svc && g.r.Intn(2) == 0 {
+		// with every client finished the lock is free: this one is really made
+		g.lineOneShot()
 	}
 	g.emit("probe")
 	g.emit("dump")
